@@ -25,6 +25,8 @@ func init() {
 			ruleC10O5(r)
 			ruleC10P1(r)
 			ruleC10O6(r)
+			ruleDrainBounds(r, "O7")
+			ruleAlwaysCancels(r, "O8")
 		},
 	})
 }
